@@ -2860,6 +2860,7 @@ class Env(cabc.MutableMapping):
             val = self.get_default(key)
             if is_callable_default(val):
                 val = self._d[key] = val(self)
+                self._detyped = None
         else:
             e = "Unknown environment variable: ${}"
             raise KeyError(e.format(key))
